@@ -129,6 +129,8 @@ func (vc *VC) execInstr(ins ssa.Instruction) {
 		vc.retR = append(vc.retR, R)
 		vc.retVals = append(vc.retVals, rs)
 		vc.retMems = append(vc.retMems, vc.curMem)
+		vc.retNalloc = append(vc.retNalloc, vc.nalloc)
+		vc.retNfail = append(vc.retNfail, vc.nfail)
 		vc.retBlks = append(vc.retBlks, vc.cur)
 	case *ssa.If, *ssa.Jump:
 		// handled by edge conditions
